@@ -167,7 +167,8 @@ def _model(case, ctx):
     opts = dict(features=feat, tfeatures=bool(rng.integers(0, 2)), tfeat_rows=bool(rng.integers(0, 2)), tfeat_pad=bool(rng.integers(0, 2)),
                 nc=int(rng.integers(3, 8)), nt=int(rng.integers(2, 6)), ns=int(rng.integers(8, 40)),
                 dtype_ind=['int32', 'uint32', 'int64'][int(rng.integers(0, 3))],
-                clusters=['same', 'curated'][int(rng.integers(0, 2))])
+                clusters=['same', 'curated'][int(rng.integers(0, 2))],
+                spikeless=['none', 'middle', 'first', 'last'][int(rng.integers(0, 4))])        # templates that no spike refers to
     opts.update(dtype_amps=['float64', 'float32'][int(rng.integers(0, 2))],
                 dtype_templates=['float32', 'float32', 'float64'][int(rng.integers(0, 3))],
                 dtype_feat=['float32', 'float64'][int(rng.integers(0, 2))])
